@@ -510,14 +510,15 @@ package gohlslib
 //@        && (isG(s.segments[i]) ==> s.variant == MuxerVariantLowLatency)))
 //@   && forall(i, (0 <= i && i + 1 < len(s.segments) && isF(s.segments[i])) ==> isF(s.segments[i+1]))
 
-//@ pred ids(s *muxerStream) := forall(i, (0 <= i && i < len(s.segments) && isF(s.segments[i])) ==> (
+//@ pred idsF(s *muxerStream) := forall(i, (0 <= i && i < len(s.segments) && isF(s.segments[i])) ==> (
 //@        asF(s.segments[i]).id == s.segmentDeleteCount + i
 //@        && asF(s.segments[i]).path == segmentPath(s.prefix, s.id, s.segmentDeleteCount + i, true)
 //@        && asF(s.segments[i]).storage != nil && ref(asF(s.segments[i]).storage) != 0))
-//@   && forall(i, (0 <= i && i < len(s.segments) && isM(s.segments[i])) ==> (
+//@ pred idsM(s *muxerStream) := forall(i, (0 <= i && i < len(s.segments) && isM(s.segments[i])) ==> (
 //@        asM(s.segments[i]).id == s.segmentDeleteCount + i
 //@        && asM(s.segments[i]).path == segmentPath(s.prefix, s.id, s.segmentDeleteCount + i, false)
 //@        && asM(s.segments[i]).storage != nil && ref(asM(s.segments[i]).storage) != 0))
+//@ pred ids(s *muxerStream) := idsF(s) && idsM(s)
 
 //@ pred partsOK(s *muxerStream) := forall(i, j, (0 <= i && i < len(s.segments) && isF(s.segments[i]) && 0 <= j && j < len(asF(s.segments[i]).parts)) ==> asF(s.segments[i]).parts[j] != nil)
 
@@ -576,7 +577,8 @@ package gohlslib
 //@   ensures result == nil ==> len(s.segments) >= 1 && s.segments[len(s.segments) - 1] == old(s.nextSegment)
 //@   ensures result == nil ==> (idRel(s) && len(s.segments) <= s.segmentCount)
 //@   ensures result == nil ==> shape(s)
-//@   ensures result == nil ==> ids(s)
+//@   ensures result == nil ==> idsF(s)
+//@   ensures result == nil ==> idsM(s)
 //@   ensures result == nil ==> partsOK(s)
 //@   ensures result == nil ==> openSeg(s)
 //@   ensures result == nil ==> (s.variant != MuxerVariantMPEGTS ==> (s.nextPartID == old(s.nextPartID) + 1 && s.nextPart.startDTS == nextDTS))
